@@ -69,7 +69,13 @@ def c01():
     return [lookup.NameLookup()]
 
 
+def c03():
+    from harness import symtab
+    return [symtab.SymbolTable()]
+
+
 REGISTRY = {
+    'C03': dict(harnesses=c03, run=_runner('C03', c03)),
     'C01': dict(harnesses=c01, run=_runner('C01', c01)),
     'C18': dict(harnesses=c18, run=_runner('C18', c18)),
     'C19': dict(harnesses=c19, run=_runner('C19', c19)),
